@@ -29,9 +29,16 @@ pub enum InvKind {
     Alt,
     /// Explicit payee key, correctly signed.
     ExplicitPayee,
+    /// Two route hints: the first ends at the local node, the second elsewhere.
+    MixedHintSelfFirst,
+    /// Two route hints: the first ends elsewhere, the second at the local node.
+    MixedHintSelfLast,
+    /// A different invoice for the same hash with the SAME amount and payee
+    /// (other description).
+    AltSameAmount,
 }
 
-pub const KINDS: [InvKind; 7] = [
+pub const KINDS: [InvKind; 10] = [
     InvKind::Fixed,
     InvKind::Amountless,
     InvKind::SelfHint,
@@ -39,6 +46,9 @@ pub const KINDS: [InvKind; 7] = [
     InvKind::BadSig,
     InvKind::Alt,
     InvKind::ExplicitPayee,
+    InvKind::MixedHintSelfFirst,
+    InvKind::MixedHintSelfLast,
+    InvKind::AltSameAmount,
 ];
 
 pub struct Inv {
@@ -145,6 +155,7 @@ fn build_pool() -> Pool {
             let mut b = InvoiceBuilder::new(Currency::Regtest)
                 .description(match kind {
                     InvKind::Alt => format!("alternative invoice {}", i),
+                    InvKind::AltSameAmount => format!("same amount, other words {}", i),
                     _ => format!("trampoline this {}", i),
                 })
                 .payment_hash(sha256::Hash::from_byte_array(hashes[i]))
@@ -165,6 +176,12 @@ fn build_pool() -> Pool {
             match kind {
                 InvKind::SelfHint => b = b.private_route(hint(local_pubkey)),
                 InvKind::OtherHint => b = b.private_route(hint(other_pubkey)),
+                InvKind::MixedHintSelfFirst => {
+                    b = b.private_route(hint(local_pubkey)).private_route(hint(other_pubkey))
+                }
+                InvKind::MixedHintSelfLast => {
+                    b = b.private_route(hint(other_pubkey)).private_route(hint(local_pubkey))
+                }
                 InvKind::BadSig | InvKind::ExplicitPayee => b = b.payee_pub_key(recipient_pubkey),
                 _ => {}
             }
@@ -287,6 +304,10 @@ pub struct RunCfg {
     /// one step (several replies / deliveries become runnable together).
     #[serde(default)]
     pub f_multi: u32,
+    /// per mille: an elapsed sleep of a plugin task is observed one scheduling
+    /// round later (so that whatever became runnable in the same instant runs first)
+    #[serde(default)]
+    pub f_timer_late: u32,
     /// pending / failed `pay` results carry a (placeholder) payment_preimage so
     /// that they deserialise into the typed response; without it the plugin
     /// sees a code-less RPC error although the command ran.
@@ -295,6 +316,9 @@ pub struct RunCfg {
     /// injected RPC errors carry messages of several KiB of mixed-width UTF-8
     #[serde(default)]
     pub big_messages: bool,
+    /// getinfo replies carry sync warnings
+    #[serde(default)]
+    pub sync_warnings: bool,
     /// shape of the JSON-RPC ids of hook calls: 0 "cln:htlc_accepted#n",
     /// 1 small integer, 2 integer above i64::MAX, 3 string with quotes,
     /// backslash and non-ASCII characters
@@ -401,8 +425,10 @@ pub fn base_cfg(rng: &mut Rng, profile: &str) -> RunCfg {
         f_long_downtime: 0,
         f_yield: 0,
         f_multi: 0,
+        f_timer_late: 0,
         pay_placeholder: true,
         big_messages: false,
+        sync_warnings: false,
         id_style: 0,
         raw_json_opts: None,
         pipeline_init: false,
@@ -425,6 +451,9 @@ pub struct HtlcSpec {
     /// Bytes of `htlc_hash` sent as htlc.payment_hash (32 normally; shorter =
     /// a proper prefix, 33 = one byte appended: never a match for any invoice).
     pub hash_len: u8,
+    /// 0 = none; otherwise the request is sent with a field of the wrong JSON
+    /// type or without a required field (engine::build_call).
+    pub req_mutation: u8,
     pub amount_msat: u64,
     /// Absolute expiry = clamp(height_at_offer + off) unless `expiry_abs`.
     pub expiry_off: i64,
@@ -869,7 +898,13 @@ pub fn gen_set(content_seed: u64, set_ix: u32, cfg: &RunCfg, force_hash: Option<
 
     // Non-trampoline / undecodable singles.
     if r.permille(cfg.f_undecodable) {
-        let (payload_hex, tag) = undecodable_payload(r);
+        let (mut payload_hex, mut tag) = undecodable_payload(r);
+        let req_mutation = if r.chance(1, 3) { 1 + r.below(11) as u8 } else { 0 };
+        if req_mutation != 0 {
+            // an otherwise ordinary request
+            payload_hex = hex::encode(onion_payload(1000, 500, 1000, None, false));
+            tag = "request:field-of-wrong-type-or-missing";
+        }
         return SetSpec {
             set_ix,
             hash_ix,
@@ -878,6 +913,7 @@ pub fn gen_set(content_seed: u64, set_ix: u32, cfg: &RunCfg, force_hash: Option<
                 hash_ix,
                 htlc_hash: pool.hashes[hash_ix],
                 hash_len: 32,
+                req_mutation,
                 amount_msat: 1000,
                 expiry_off: 2000,
                 expiry_abs: None,
@@ -906,6 +942,7 @@ pub fn gen_set(content_seed: u64, set_ix: u32, cfg: &RunCfg, force_hash: Option<
                 hash_ix,
                 htlc_hash: pool.hashes[hash_ix],
                 hash_len: 32,
+                req_mutation: 0,
                 amount_msat: 1000,
                 expiry_off: 2000,
                 expiry_abs: None,
@@ -921,12 +958,14 @@ pub fn gen_set(content_seed: u64, set_ix: u32, cfg: &RunCfg, force_hash: Option<
     }
 
     // Trampoline-looking sets.
-    let kind = match r.below(10) {
+    let kind = match r.below(12) {
         0..=3 => InvKind::Fixed,
         4..=5 => InvKind::Amountless,
         6 => InvKind::SelfHint,
         7 => InvKind::OtherHint,
         8 => InvKind::ExplicitPayee,
+        10 => InvKind::MixedHintSelfFirst,
+        11 => InvKind::MixedHintSelfLast,
         _ => InvKind::Fixed,
     };
     let inv = pool.inv(hash_ix, kind);
@@ -1059,7 +1098,8 @@ pub fn gen_set(content_seed: u64, set_ix: u32, cfg: &RunCfg, force_hash: Option<
                     }
                 }
                 3 => {
-                    inv_bytes = pool.inv(hash_ix, InvKind::Alt).bolt11.as_bytes().to_vec();
+                    let alt = if inv.amount.is_some() && r.chance(1, 2) { InvKind::AltSameAmount } else { InvKind::Alt };
+                    inv_bytes = pool.inv(hash_ix, alt).bolt11.as_bytes().to_vec();
                     field = AmtField::Absent;
                     tag = "reject:conflicting-invoice";
                 }
@@ -1099,6 +1139,7 @@ pub fn gen_set(content_seed: u64, set_ix: u32, cfg: &RunCfg, force_hash: Option<
             hash_ix,
             htlc_hash,
             hash_len,
+            req_mutation: 0,
             amount_msat: *p,
             expiry_off: off,
             expiry_abs,
@@ -1175,6 +1216,7 @@ fn gen_nontrampoline(r: &mut Rng, cfg: &RunCfg, set_ix: u32, hash_ix: usize) -> 
             hash_ix,
             htlc_hash: pool.hashes[hash_ix],
             hash_len: 32,
+            req_mutation: 0,
             amount_msat: 1000,
             expiry_off: 2000,
             expiry_abs: None,
@@ -1203,6 +1245,7 @@ pub fn probe_set(cfg: &RunCfg, hash_ix: usize, overpay: u64) -> Option<HtlcSpec>
         hash_ix,
         htlc_hash: pool.hashes[hash_ix],
         hash_len: 32,
+        req_mutation: 0,
         amount_msat: total,
         expiry_off: cfg.policy_delta as i64 + cfg.cltv_delta as i64 + 100,
         expiry_abs: None,
